@@ -176,9 +176,9 @@ pub struct Case {
     /// constraint of the parent type in contexts 15, 16, 19
     pub parent: Option<Atom>,
 }
-pub const CTX_NAMES: [&str; 27] = [
+pub const CTX_NAMES: [&str; 28] = [
     "INTEGER-assignment", "INTEGER-component", "constrained-reference-assignment", "constrained-reference-component", "value-reference-endpoints", "named-number-endpoints",
-    "OCTET-STRING-SIZE-assignment", "BIT-STRING-SIZE-component", "IA5String-SIZE-assignment", "SEQUENCE-OF-SIZE-assignment", "SET-OF-SIZE-component", "BMPString-SIZE-component", "named-numbers-of-referenced-type", "INTEGER-object-set-alternative", "OCTET-STRING-SIZE-object-set-alternative", "constrained-parent-assignment", "constrained-parent-component", "OCTET-STRING-SIZE-per-operand-assignment", "IA5String-SIZE-per-operand-component", "constrained-parent-SIZE-assignment", "OCTET-STRING-SIZE-value-reference-endpoints", "BIT-STRING-SIZE-component-value-reference-endpoints", "SEQUENCE-OF-SIZE-value-reference-endpoints", "string-SIZE-component-value-reference-endpoints", "SEQUENCE-OF-element-reference-assignment", "SET-OF-element-reference-component", "named-numbers-of-referenced-type-component",
+    "OCTET-STRING-SIZE-assignment", "BIT-STRING-SIZE-component", "IA5String-SIZE-assignment", "SEQUENCE-OF-SIZE-assignment", "SET-OF-SIZE-component", "BMPString-SIZE-component", "named-numbers-of-referenced-type", "INTEGER-object-set-alternative", "OCTET-STRING-SIZE-object-set-alternative", "constrained-parent-assignment", "constrained-parent-component", "OCTET-STRING-SIZE-per-operand-assignment", "IA5String-SIZE-per-operand-component", "constrained-parent-SIZE-assignment", "OCTET-STRING-SIZE-value-reference-endpoints", "BIT-STRING-SIZE-component-value-reference-endpoints", "SEQUENCE-OF-SIZE-value-reference-endpoints", "string-SIZE-component-value-reference-endpoints", "SEQUENCE-OF-element-reference-assignment", "SET-OF-element-reference-component", "named-numbers-of-referenced-type-component", "named-numbers-of-inline-type-component-with-homonym",
 ];
 impl Case {
     fn is_size(&self) -> bool {
@@ -210,7 +210,7 @@ impl Case {
     fn emit(&self, n: usize, src: &mut String) -> (String, Option<String>) {
         let sp = match self.ctx {
             4 | 20..=23 => 1,
-            5 | 12 | 26 => 2,
+            5 | 12 | 26 | 27 => 2,
             _ => 0,
         };
         let mut names = vec![];
@@ -317,6 +317,18 @@ impl Case {
                 } else {
                     let en: Vec<String> = names.iter().map(|(nm, _)| nm.clone()).collect();
                     src.push_str(&format!("Ta{n}decoy ::= INTEGER {{ {} }}\nTa{n}enum ::= ENUMERATED {{ zq{n}first, {} }}\nTb{n}gov ::= INTEGER {{ {} }}\nTq{n} ::= SEQUENCE {{ fq1 Tb{n}gov {c} }}\n", dd.join(", "), en.join(", "), nn.join(", ")));
+                }
+                (format!("Tq{n}"), Some("fq1".into()))
+            }
+            27 => {
+                // the component's own (inline) INTEGER type declares the named numbers; another top-level type that sorts before
+                // the SEQUENCE declares the same names with other numbers
+                let nn: Vec<String> = names.iter().map(|(nm, v)| format!("{nm}({v})")).collect();
+                let dd: Vec<String> = names.iter().map(|(nm, v)| format!("{nm}({})", v + 1000)).collect();
+                if nn.is_empty() {
+                    src.push_str(&format!("Tq{n} ::= SEQUENCE {{ fq1 INTEGER {c} }}\n"));
+                } else {
+                    src.push_str(&format!("Ta{n}decoy ::= INTEGER {{ {} }}\nTq{n} ::= SEQUENCE {{ fq1 INTEGER {{ {} }} {c} }}\n", dd.join(", "), nn.join(", ")));
                 }
                 (format!("Tq{n}"), Some("fq1".into()))
             }
@@ -616,7 +628,7 @@ fn check_batch(cases: &[Case], rep: &mut Report) {
         for (kind, detail) in verdicts {
             let ctxc = match c.ctx {
                 0 | 4 | 5 => "assignment",
-                1 => "component",
+                1 | 27 => "component",
                 2 | 3 | 12 | 15 | 16 | 19 | 26 => "constrained-reference",
                 24 | 25 => "collection-element",
                 13 | 14 => "object-set-alternative",
@@ -629,6 +641,16 @@ fn check_batch(cases: &[Case], rep: &mut Report) {
             let has_except = c.expr.terms.iter().flatten().any(|(_, e)| e.is_some());
             let class = if c.ctx == 5 {
                 "named-number-endpoints-of-own-type".to_string()
+            } else if c.ctx == 27 && kind != "extensible-flag" && {
+                let mut nm = vec![];
+                let mut sr = 0;
+                let _ = c.expr.text(2, false, &mut nm, &mut sr);
+                if let Some((e, _)) = &c.serial {
+                    let _ = e.text(2, false, &mut nm, &mut sr);
+                }
+                nm.iter().any(|(n, _)| !n.starts_with('#'))
+            } {
+                "named-number-of-the-inline-type-resolved-in-a-homonymous-type".to_string()
             } else if n_ops >= 2 {
                 "set-operations>=2".to_string()
             } else if (c.serial.is_some() || c.parent.is_some()) && has_union {
@@ -860,8 +882,9 @@ pub fn run(ctx: &Ctx) -> Report {
     let nrand = ctx.pick(40_000u64, 800_000);
     for i in 0..nrand {
         let mut rng = Rng::for_case(ctx.seed, 4, i);
-        let c = match rng.below(14) {
+        let c = match rng.below(15) {
             13 => 26,
+            14 => 27,
             x => x,
         } as u8;
         let pool = if (6..=11).contains(&c) { &sat7 } else { &at7 };
